@@ -200,6 +200,10 @@ class Run:
         cots = []
         for c in self.case["session"]:
             g = frozen([c["g"], 2 * c["g"]])
+            if self.case.get("intcot"):
+                # a cotangent of integer dtype is still a cotangent: accumulation must not happen in its dtype
+                g = onp.array([c["g"], 2 * c["g"]], dtype=onp.int64)
+                g.flags.writeable = False
             cots.append((g, g.copy()))
             self.events.append({"e": "call", "g": c["g"]})
             self.call_applies = 0
